@@ -22,6 +22,11 @@ func main() { Main() }
 type item struct {
 	id   int
 	refs []int
+	// guarded: the references of a function (a subset of refs) that are
+	// emitted in a branch never taken, so that functions can refer to each
+	// other in cycles (recursion) without looping; a reference counts for the
+	// initialisation order whether it is executed or not
+	guarded map[int]bool
 }
 
 type pkg struct {
@@ -68,6 +73,39 @@ func (p pkg) reachesVar(f int, seen map[int]bool) bool {
 			if p.reachesVar(r, seen) {
 				return true
 			}
+		}
+	}
+	return false
+}
+
+// varOnCycle reports whether some variable refers, through any path of references, to itself.
+func (p pkg) varOnCycle() bool {
+	refs := map[int][]int{}
+	for _, v := range p.vars {
+		refs[v.id] = v.refs
+	}
+	for _, f := range p.funcs {
+		refs[f.id] = f.refs
+	}
+	for _, v := range p.vars {
+		seen := map[int]bool{}
+		var walk func(id int) bool
+		walk = func(id int) bool {
+			for _, r := range refs[id] {
+				if r == v.id {
+					return true
+				}
+				if !seen[r] {
+					seen[r] = true
+					if walk(r) {
+						return true
+					}
+				}
+			}
+			return false
+		}
+		if walk(v.id) {
+			return true
 		}
 	}
 	return false
@@ -128,10 +166,39 @@ func gen(c *Ctx) pkg {
 	}
 	c.Rng.Shuffle(len(vs), func(i, j int) { vs[i], vs[j] = vs[j], vs[i] })
 	for _, id := range vs {
-		p.vars = append(p.vars, item{id, refs[id]})
+		p.vars = append(p.vars, item{id: id, refs: refs[id]})
 	}
 	for _, id := range fs {
-		p.funcs = append(p.funcs, item{id, refs[id]})
+		it := item{id: id, refs: refs[id]}
+		// recursion among functions: a guarded reference to any function, itself included
+		if len(fs) > 0 && c.Rng.Intn(2) == 0 {
+			g := fs[c.Rng.Intn(len(fs))]
+			dup := false
+			for _, r := range it.refs {
+				dup = dup || r == g
+			}
+			if !dup {
+				it.refs = append(it.refs, g)
+				it.guarded = map[int]bool{g: true}
+			}
+		}
+		p.funcs = append(p.funcs, it)
+	}
+	// a cycle through a variable is an initialisation cycle (invalid Go): drop the guarded
+	// references until no variable reaches itself
+	for p.varOnCycle() {
+		dropped := false
+		for i := range p.funcs {
+			if f := &p.funcs[i]; len(f.guarded) > 0 {
+				f.refs = f.refs[:len(f.refs)-1]
+				f.guarded = nil
+				dropped = true
+				break
+			}
+		}
+		if !dropped {
+			break
+		}
 	}
 	return p
 }
@@ -156,10 +223,15 @@ func (p pkg) decls(rec string) string {
 	}
 	for _, f := range p.funcs {
 		e := fmt.Sprint(f.id)
+		g := ""
 		for _, r := range f.refs {
-			e += " + " + name(r)
+			if f.guarded[r] {
+				g += fmt.Sprintf("n := 0; if n > 0 { return %s }; ", name(r))
+			} else {
+				e += " + " + name(r)
+			}
 		}
-		fmt.Fprintf(&b, "func f%d() int { return %s }\n", f.id, e)
+		fmt.Fprintf(&b, "func f%d() int { %sreturn %s }\n", f.id, g, e)
 	}
 	return b.String()
 }
@@ -257,9 +329,11 @@ func cases(c *Ctx) []pkg {
 		n = 400 + c.N/20
 	}
 	ps := []pkg{
-		{vars: []item{{1, []int{10}}, {2, []int{11}}}, funcs: []item{{10, []int{2}}, {11, nil}}}, // the design-phase witness
-		{vars: []item{{1, []int{2}}, {2, []int{3}}, {3, nil}}},
-		{vars: []item{{1, nil}}},
+		{vars: []item{{id: 1, refs: []int{10}}, {id: 2, refs: []int{11}}}, funcs: []item{{id: 10, refs: []int{2}}, {id: 11}}}, // the design-phase witness
+		{vars: []item{{id: 1, refs: []int{2}}, {id: 2, refs: []int{3}}, {id: 3}}},
+		{vars: []item{{id: 1}}},
+		// a variable reached through mutually recursive functions
+		{vars: []item{{id: 1, refs: []int{10}}, {id: 2}}, funcs: []item{{id: 10, refs: []int{11}}, {id: 11, refs: []int{2, 10}, guarded: map[int]bool{10: true}}}},
 	}
 	for i := 0; i < n; i++ {
 		ps = append(ps, gen(c))
